@@ -96,8 +96,8 @@ Definition b2z (b : bool) : Z := if b then 1 else 0.
 
 (* row: [id; model agrees; spec holds; nontrivial; coverage; first disagreeing op;
          first op violating S1 (held); S2 (applied); S4 (failure propagates)] *)
-Definition cfg_case (id : Z) (pl : bool) (ops : list op) (rfail afail : list nat) (obs : list oobs) : list Z :=
-  let e := {| plus := pl; ro := fails_at rfail; ao := fails_at afail |} in
+Definition cfg_case (id : Z) (pl : bool) (fxs : fixes) (ops : list op) (rfail afail : list nat) (obs : list oobs) : list Z :=
+  let e := {| plus := pl; ro := fails_at rfail; ao := fails_at afail; fx := fxs |} in
   let ag := agree_from e init ops obs 0 in
   let s1 := held_from true obs 0 in
   let s2 := first_bad2 (applied_ok pl) ops obs 0 in
@@ -160,7 +160,9 @@ Definition sync_verdict (pl : bool) (rd bt ch p brk : bool) (t : task) (o : sobs
             end in
           let '(fpre, has_main) := split_main l false in
           let by_task := if is_endp_task (t_kind t) then 6 else if t_reports t then 5 else 0 in
-          if fpre then (if has_main then by_task else if bt && negb bt' then 5 else by_task)
+          (* the reload that ends a batch: every resource is concerned; with none left there is nothing to report on *)
+          let at_end := match t_all t with [] => 0 | _ => 5 end in
+          if fpre then (if has_main then by_task else if bt && negb bt' then at_end else by_task)
           else (if t_all_reports t then 5 else 0))
   else if bt && negb bt' && changed && negb (last_change_reloaded l) then 2
   else if rd && negb bt && negb bt' && existsb is_change l && negb (last_change_reloaded l)
@@ -193,8 +195,8 @@ Definition scover (t : list ev) (xs : list sout) (c : ctl) : Z :=
   bit (uab c) 64.
 
 (* row: [id; model agrees; spec holds; nontrivial; coverage; first disagreeing sync; verdict per sync ...] *)
-Definition ctl_case (id : Z) (pl : bool) (ts : list task) (rfail afail : list nat) (obs : list sobs) : list Z :=
-  let e := {| plus := pl; ro := fails_at rfail; ao := fails_at afail |} in
+Definition ctl_case (id : Z) (pl : bool) (fxs : fixes) (ts : list task) (rfail afail : list nat) (obs : list sobs) : list Z :=
+  let e := {| plus := pl; ro := fails_at rfail; ao := fails_at afail; fx := fxs |} in
   let ag := sagree_from e ctl_init ts obs 0 in
   let vs := sverdicts pl false false false false false ts obs in
   let '(c, xs) := run_sync e ctl_init ts in
